@@ -154,6 +154,7 @@ def _second_loop_scenario(rng, i):
 fam(ScenarioFamily('second_loop', ('C08',), _second_loop_scenario, 200, 2000))
 fam(ScenarioFamily('gather', ('C04',), gen.gather_scenario, 300, 3000))
 fam(ScenarioFamily('late_on', ('C01', 'C09', 'C11', 'C03'), gen.late_on_scenario, 300, 3000))
+fam(EnumFamily('fwdback_timeout_enum', ('C10', 'C08'), gen.fwdback_base, gen.fwdback_derive, 6, 100, 40, 150))
 fam(ScenarioFamily('manual_step', ('C06',), gen.manual_step_scenario, 150, 1500))
 fam(EnumFamily('double_cancel_enum', ('C06', 'C10', 'C02'), gen.double_cancel_base, gen.double_cancel_derive, 8, 120, 40, 150))
 fam(EnumFamily('waitfor_enum', ('C15',), gen.waitfor_base, gen.waitfor_derive, 16, 200, 40, 120))
@@ -175,6 +176,8 @@ CHECKS['C15'].families.append('idle_enum')
 for _p in ('C01', 'C09', 'C11', 'C03'):
     CHECKS[_p].families.append('late_on')
 CHECKS['C04'].families.append('gather')
+# (C03 / C04 are not run on the timeout programs: what a timeout may leave incomplete is decided by C10's clauses - touched events
+#  complete, no pending results, awaiters released - with the exact F5 signature; see DESIGN.md 8.6)
 CHECKS['C08'].families.append('second_loop')
 CHECKS['C15'].families += ['timeout_enum', 'waitfor_enum']  # 'whatever happened to earlier events': handler timeouts, user-bounded awaits
 for _p in ('C01', 'C03', 'C04', 'C13', 'C15'):
@@ -413,7 +416,9 @@ CHECKS['C14'].floors['c14_noloop_dispatches'] = {'quick': 50, 'thorough': 500}
 
 
 CHECKS['C06'].families.append('manual_step')
+CHECKS['C08'].families.append('fwdback_timeout_enum')
 CHECKS['C02'].families.append('capacity')  # bursts that fill the bounded queue: order among accepted events, rejected ones aside
+CHECKS['C10'].families.append('fwdback_timeout_enum')  # a forwarded-back event that has already signalled gets fresh pending results inside a timed handler's drain
 for _p in ('C06', 'C10', 'C02'):
     CHECKS[_p].families.append('double_cancel_enum')  # a second cancellation while the first one is still being cleaned up
 
